@@ -14,7 +14,6 @@ import (
 	"strings"
 	"time"
 
-	"github.com/cenkalti/backoff/v4"
 	"github.com/gebn/bmc"
 	"github.com/gebn/bmc/pkg/ipmi"
 )
@@ -83,6 +82,7 @@ type hsConn struct {
 	cancel context.CancelFunc
 	pass   []byte
 	kg     []byte
+	closeT func()
 }
 
 func newHsConn() *hsConn {
@@ -104,7 +104,7 @@ func newHsConn() *hsConn {
 		}
 		return c.recv[:copy(c.recv, r)], nil
 	}
-	c.t = bmc.VerifNewV2SessionlessTransport(send, 50*time.Millisecond, &backoff.ZeroBackOff{})
+	c.t, c.closeT = newTransport(send, 50*time.Millisecond)
 	return c
 }
 
@@ -171,7 +171,9 @@ func (c *hsConn) handshake(o hsOpts, suites []ipmi.CipherSuite, reply func(i int
 }
 
 func execHs(a []string) (string, string) {
-	return execHsOn(newHsConn(), a)
+	c := newHsConn()
+	defer c.closeT()
+	return execHsOn(c, a)
 }
 
 // hs2 <12 hs args> / <12 hs args> / …: several handshakes one after another on ONE connection, the caller reusing its
